@@ -25,6 +25,54 @@ def handleC09 : List String → Verdict
       | _, _ => .badOp
   | _ => .badOp
 
+def wsMarker : Bytes := Bytes.ofString "templruntime.WriteString(templ_7745c5c3_Buffer, "
+
+/-- Split generated code into (concatenated static literal texts, the remaining code with every literal-writing
+    statement — the call and its three-line error check — removed). -/
+def litsAndSkeleton (g : Bytes) : List Bytes × List Bytes :=
+  let rec go (fuel : Nat) (ls : List Bytes) (lits : List Bytes) (skel : List Bytes) : List Bytes × List Bytes :=
+    match fuel, ls with
+    | 0, _ => (lits.reverse, skel.reverse)
+    | _, [] => (lits.reverse, skel.reverse)
+    | fuel + 1, l :: rest =>
+      if Bytes.hasInfix wsMarker l then
+        -- literal = text between the first `"` after the marker's index argument and the final `")`
+        let afterQuote := (l.dropWhile (· != 34)).drop 1
+        let lit := afterQuote.take (afterQuote.length - 2)
+        go fuel (rest.drop 3) (lit :: lits) skel
+      else go fuel rest lits (l :: skel)
+  go (g.length + 1) (splitLF g) [] []
+
+/-- `b` is `a` with extra spaces inserted; every inserted space touches a tag boundary: the previous byte is `>`
+    or the next non-space byte is `<`, or it is at the very start / end (the edge of a static literal). -/
+def spacesOnlyAtBoundaries : Nat → Option UInt8 → Bytes → Bytes → Bool
+  | 0, _, _, _ => false
+  | _, _, [], [] => true
+  | fuel + 1, prev, a, 32 :: b' =>
+    match a with
+    | 32 :: a' => spacesOnlyAtBoundaries fuel (some 32) a' b'          -- a space that was already there
+    | _ =>
+      let nextNonSpace := (b'.dropWhile (· == 32)).head?
+      (prev == some 62 || prev == none || prev == some 32 || nextNonSpace == some 60 || nextNonSpace == none) &&
+        spacesOnlyAtBoundaries fuel (some 32) a b'
+  | fuel + 1, _, x :: a', y :: b' => x == y && spacesOnlyAtBoundaries fuel (some y) a' b'
+  | _, _, _, _ => false
+
+/-- Classify how formatting changed the generated code. -/
+def changeKind (g0 g1 : Bytes) : String :=
+  let (l0, s0) := litsAndSkeleton g0
+  let (l1, s1) := litsAndSkeleton g1
+  let strip := fun (b : Bytes) => b.filter (· != 32)
+  let trim := fun (b : Bytes) => ((b.dropWhile (· == 32)).reverse.dropWhile (· == 32)).reverse
+  let edges := fun (ls : List Bytes) => (ls.map trim).filter (!·.isEmpty)
+  let n0 := l0.flatten.length
+  let n1 := l1.flatten.length
+  if s0 == s1 && edges l0 == edges l1 && n1 > n0 then "space-added"          -- only at the edges of literals: between nodes
+  else if s0 == s1 && n1 > n0 && spacesOnlyAtBoundaries (n0 + n1 + 2) none l0.flatten l1.flatten then "space-added"
+  else if s0 == s1 && strip l0.flatten == strip l1.flatten then
+    (if n1 > n0 then "space-added-inside-text" else if n1 < n0 then "space-lost" else "space-moved")
+  else "other"
+
 def handleC08 : List String → Verdict
   | ["gen", origin, _srcH, f1S, g0H, g1S] =>
     if f1S == "ERR" then { predfail := some "accepted template could not be formatted", nontrivial := true, tags := [origin], sig := "gen;format-error" }
@@ -32,8 +80,9 @@ def handleC08 : List String → Verdict
     else
       match hexField g0H, hexField g1S with
       | some g0, some g1 =>
-        { predfail := if g0 == g1 then none else some s!"generated code changed by formatting: {firstDiff g0 g1}",
-          nontrivial := true, tags := [origin], sig := "gen;code-changed" }
+        let kind := if g0 == g1 then "" else changeKind g0 g1
+        { predfail := if g0 == g1 then none else some s!"generated code changed by formatting ({kind}): {firstDiff g0 g1}",
+          nontrivial := true, tags := [origin], sig := "gen;code-changed;" ++ kind }
       | _, _ => .badOp
   | _ => .badOp
 
